@@ -107,7 +107,9 @@ static int bf_model(int kind, int w, int op, u64 old, u64 v, u64 *newv, u64 *val
   return 1;
 }
 
-typedef struct { acc_t acc; u8 *o; int n; const BfRow *r; u8 F[160], P[160], Q[160]; u64 df, dp, dq; } BfState;
+/* J = judged bits: the neighbours' bits and everything outside the struct (guards).  Padding bits inside the struct may
+   take unspecified values when a member is stored (6.2.6.1p6) and are not judged. */
+typedef struct { acc_t acc; u8 *o; int n; const BfRow *r; u8 F[160], P[160], Q[160], J[160]; u64 df, dp, dq; } BfState;
 
 static void bf_bits(BfState *s, int setop, int kind, int w, u8 *out, const char *who) {
   u8 a[160], b[160], d2[160];
@@ -149,7 +151,7 @@ static void bf_do(BfState *s, int op, u64 v) {
   memcpy(b, s->o, s->n);
   EVAL();
   for (int i = 0; i < s->n; i++)
-    if ((a[i] ^ b[i]) & ~s->F[i]) {
+    if ((a[i] ^ b[i]) & ~s->F[i] & s->J[i]) {
       snprintf(dev, sizeof dev, "%s:bits-outside-field-changed", cls);
       viol(dev, "f %s %#lx (old %#lx): byte %d of object %02x->%02x, field mask %02x", opname[op], v, old, i, a[i], b[i], s->F[i]);
       break;
@@ -184,6 +186,7 @@ static void bf_case(acc_t acc, void *obj, const BfRow *r) {
     if ((s->F[i] & s->P[i]) | (s->F[i] & s->Q[i]) | (s->P[i] & s->Q[i])) { viol("fields-overlap", "byte %d of object: f %02x pre %02x post %02x", i, s->F[i], s->P[i], s->Q[i]); break; }
     if ((s->F[i] | s->P[i] | s->Q[i]) && (o + i < ss || o + i >= ss + ssz)) { viol("field-outside-object", "byte %d of enclosing object is outside the struct (+%ld..+%ld)", i, (long)(ss - o), (long)(ss - o) + ssz); break; }
   }
+  for (int i = 0; i < s->n; i++) s->J[i] = (o + i < ss || o + i >= ss + ssz) ? 0xff : (s->P[i] | s->Q[i] | s->F[i]);
   u64 fmx = fmax_(r->kind, r->w), fmn = fmin_(r->kind, r->w);
   u64 vals[] = {0, 1, 2, ~0UL, ~1UL, fmx, fmn, fmx + 1, fmn - 1, 0x5555555555555555UL, 0xAAAAAAAAAAAAAAAAUL, 0x0123456789ABCDEFUL, 0x100, 1UL << 32, 1UL << 63};
   u64 olds[] = {0, 1, fmx, fmn, fconv(r->kind, r->w, 0x5555555555555555UL), fconv(r->kind, r->w, 0xAAAAAAAAAAAAAAAAUL)};
@@ -236,7 +239,7 @@ static void bf_case(acc_t acc, void *obj, const BfRow *r) {
         memcpy(c, o, s->n);
         EVAL();
         for (int i = 0; i < s->n; i++)
-          if ((a[i] ^ c[i]) & ~M[i]) { viol("neighbour-store:bits-outside-field-changed", "%s = %#lx: byte %d %02x->%02x mask %02x", which ? "post" : "pre", nv[j], i, a[i], c[i], M[i]); break; }
+          if ((a[i] ^ c[i]) & ~M[i] & s->J[i]) { viol("neighbour-store:bits-outside-field-changed", "%s = %#lx: byte %d %02x->%02x mask %02x", which ? "post" : "pre", nv[j], i, a[i], c[i], M[i]); break; }
         u64 g = (u64)acc(o, which ? OP_GETPOST : OP_GETPRE, 0);
         if (g != fconv(k, w, nv[j])) viol("neighbour-store:readback-wrong", "%s = %#lx reads back %#lx, want %#lx", which ? "post" : "pre", nv[j], g, fconv(k, w, nv[j]));
         if ((u64)acc(o, OP_GETF, 0) != f0) viol("neighbour-store:f-changed", "%s = %#lx changed f from %#lx to %#lx", which ? "post" : "pre", nv[j], f0, (u64)acc(o, OP_GETF, 0));
@@ -398,8 +401,13 @@ static void path_case(path_t fn, const PathRow *r, void *obj, int have_global) {
   int nl = r->nleaf;
   if (n <= 0 || n > 2048 || nl > 96) { viol("harness", "object size %ld leaves %d", n, nl); return; }
   if (rr < o + 16 || rr + rsz + 16 > o + n) viol("paths:member-outside-object", "r at +%ld size %ld in object of %ld", (long)(rr - o), rsz, n);
-  u8 a[2048], b[2048];
+  u8 a[2048], b[2048], judged[2048];
   long off[96];
+  for (int k = 0; k < nl; k++) off[k] = (u8 *)fn(o, k, P_ADDR, 0) - o;
+  /* bytes judged after a store to leaf k: bytes of leaves that cannot overlap k, and bytes outside member r.  Padding and
+     the other members of an enclosing union take unspecified values (6.2.6.1p6,p7) and are not judged. */
+#define JUDGED_FOR(k) do { for (long i_ = 0; i_ < n; i_++) judged[i_] = (o + i_ < rr || o + i_ >= rr + rsz); \
+    for (int m_ = 0; m_ < nl; m_++) if (!r->ov[(k) * nl + m_] && off[m_] >= 0 && off[m_] + r->size[m_] <= n) memset(judged + off[m_], 1, r->size[m_]); } while (0)
   static const int bgs[] = {0x00, 0xff, 0xa5};
   /* byte set of every leaf: exactly sizeof bytes at its own address, naturally aligned, inside r */
   for (int k = 0; k < nl; k++) {
@@ -412,9 +420,10 @@ static void path_case(path_t fn, const PathRow *r, void *obj, int have_global) {
       memset(o, ph ? 0xff : 0x00, n); memcpy(a, o, n);
       fn(o, k, P_SET, ph ? 0 : ~0UL);
       memcpy(b, o, n); EVAL();
+      JUDGED_FOR(k);
       for (long i = 0; i < n; i++) {
         int in = i >= off[k] && i < off[k] + sz;
-        if ((a[i] != b[i]) != in) { viol("paths:store-bytes!=leaf-bytes", "leaf %d (size %d at +%ld): storing %s changed byte +%ld: %02x->%02x", k, sz, off[k], ph ? "0" : "~0", i, a[i], b[i]); break; }
+        if (in ? a[i] == b[i] : (a[i] != b[i] && judged[i])) { viol("paths:store-bytes!=leaf-bytes", "leaf %d (size %d at +%ld): storing %s changed byte +%ld: %02x->%02x", k, sz, off[k], ph ? "0" : "~0", i, a[i], b[i]); break; }
       }
     }
   }
@@ -435,8 +444,9 @@ static void path_case(path_t fn, const PathRow *r, void *obj, int have_global) {
         memcpy(a, o, n);
         fn(o, k, op, vals[j]);
         memcpy(b, o, n); EVAL();
+        JUDGED_FOR(k);
         for (long i = 0; i < n; i++)
-          if (a[i] != b[i] && !(i >= off[k] && i < off[k] + r->size[k])) { viol("paths:bytes-outside-leaf-changed", "store variant %d to leaf %d (+%ld,%d) changed byte +%ld", op, k, off[k], r->size[k], i); break; }
+          if (a[i] != b[i] && judged[i] && !(i >= off[k] && i < off[k] + r->size[k])) { viol("paths:bytes-outside-leaf-changed", "store variant %d to leaf %d (+%ld,%d) changed byte +%ld", op, k, off[k], r->size[k], i); break; }
         for (int m = 0; m < nl; m++) {
           u64 g = (u64)fn(o, m, P_GET, 0);
           if (m == k) { if (g != want) viol("paths:readback-wrong", "store variant %d of %#lx to leaf %d (size %d) reads back %#lx, want %#lx", op, vals[j], k, r->size[k], g, want); dict[m] = g; }
